@@ -334,25 +334,27 @@ def handleCls (cls : String) (j : Json) : E Out := do
 def jEnt (M : Coo CQ) : Json :=
   jList (fun (e : Nat × Nat × CQ) => Json.arr #[jNat e.1, jNat e.2.1, jRat e.2.2.re, jRat e.2.2.im]) M.ent
 
+/-- render an operator model (all modes) plus the optional probes `x` (→ `Ax`) and `y` (→ `AHy`) -/
+def render (j : Json) (out : Out) : Json :=
+  match out.modes with
+  | [] => jErr "bad-op"
+  | (_, M) :: _ =>
+    let ap := match (field? j "x").bind cqList? with
+      | some x => [("Ax", jList jCQ (toList M.rows (apply M (vecOf x))))]
+      | none => []
+    let aa := match (field? j "y").bind cqList? with
+      | some y => [("AHy", jList jCQ (toList M.cols (applyAdj CQ.conj M (vecOf y))))]
+      | none => []
+    jObj ([("rows", jNat M.rows), ("cols", jNat M.cols), ("wf", Json.bool (out.modes.all fun m => m.2.wf)),
+           ("doubled", Json.bool out.doubled),
+           ("modes", jObj (out.modes.map fun m => (toString m.1, jEnt m.2)))] ++ ap ++ aa ++ out.extra)
+
 def handle (j : Json) : Json :=
   match fStr? j "cls" with
   | none => jErr "bad-op"
   | some cls =>
     match handleCls cls j with
     | .error e => jErr e
-    | .ok out =>
-      match out.modes with
-      | [] => jErr "bad-op"
-      | (_, M) :: _ =>
-        let ap := match (field? j "x").bind cqList? with
-          | some x => [("Ax", jList jCQ (toList M.rows (apply M (vecOf x))))]
-          | none => []
-        let aa := match (field? j "y").bind cqList? with
-          | some y => [("AHy", jList jCQ (toList M.cols (applyAdj CQ.conj M (vecOf y))))]
-          | none => []
-        jObj ([("rows", jNat M.rows), ("cols", jNat M.cols), ("wf", Json.bool (out.modes.all fun m => m.2.wf)),
-               ("doubled", Json.bool out.doubled),
-               ("modes", jObj (out.modes.map fun m => (toString m.1, jEnt m.2)))] ++ ap ++ aa ++ out.extra)
-
+    | .ok out => render j out
 
 end NiftyVerif.LinOpsProto
